@@ -3,6 +3,7 @@
    shuffles produce more than one order is a statement about the RNG and is only tested.  Statements only. *)
 From Coq Require Import ZArith NArith List Bool String Permutation.
 From DM Require Import Base.PyVal Spec.Nf Spec.Table Spec.Ops Proofs.ListX Proofs.TableFacts Proofs.TakeFacts Proofs.OpFacts.
+From DM Require Import Model.LTable Gen.KCore Model.Core Proofs.CoreRefine.
 Import ListNotations.
 
 (* all rows exactly once, rows intact *)
@@ -28,6 +29,14 @@ Proof. exact @take_pos_inj. Qed.
 Print Assumptions C11_distinct_permutations_distinct_orders.
 
 (* the result is an ordinary table: the invariant every other theorem assumes holds for it *)
+(* shuffle / sample / sort fetch the rows BY ID in the new order: on an object graph satisfying inv_b
+   (in particular: position caches absent or valid) that is the positional take of the permutation *)
+Theorem C11_l1_by_position_refines : forall t perm rid r,
+  inv_b t = true -> take_pos perm (ia (l_rowid t)) = Some rid ->
+  selectrowid t (idx_of_list rid) = Some r -> take perm (abs t) = Some (abs r).
+Proof. exact by_position_refines. Qed.
+Print Assumptions C11_l1_by_position_refines.
+
 Theorem C11_result_ordinary : forall w o, wwf w -> wwf (fst (step w o)).
 Proof. exact step_wf. Qed.
 Print Assumptions C11_result_ordinary.
